@@ -37,6 +37,9 @@ def injected_text(relfile, inj):
         indent = re.match(r"[ \t]*", src[src.rfind("\n", 0, fn.sig_start) + 1:fn.sig_start + 1]).group(0)
         line_start = src.rfind("\n", 0, fn.sig_start) + 1
         edits.append((line_start, "".join(indent + l + "\n" for l in a["lines"])))
+    for c in inj.get("crate_attr", []):
+        if c["file"] == relfile:
+            edits.append((0, "".join(l + "\n" for l in c["lines"])))
     out = src
     for off, text in sorted(edits, reverse=True):
         out = out[:off] + text + out[off:]
@@ -60,7 +63,7 @@ def prepare():
     """rsync the working tree to SRC and (re)apply injections.  Files are rewritten only when
     their content changes so that cargo does not rebuild untouched crates."""
     inj = load_inject()
-    files = sorted({x["file"] for k in ("attr", "module", "cargo") for x in inj.get(k, [])})
+    files = sorted({x["file"] for k in ("attr", "module", "cargo", "crate_attr") for x in inj.get(k, [])})
     os.makedirs(SRC, exist_ok=True)
     cmd = ["rsync", "-a", "--delete", "--exclude", "/target", "--exclude", "/.git"]
     for f in files:
